@@ -848,32 +848,84 @@ func ifelseS(b bool, x, y []string) []string {
 
 func c07R2Delete(c *Ctx) {
 	const R = "C07.R2.every-push-indexed"
+	fn := c.P.Fn("content/oci", "Store.Delete")
+	if fn == nil || len(fn.Blocks) == 0 {
+		c.LostAnchor(R, "(*~/content/oci.Store).Delete")
+		return
+	}
+	tn := FnName(fn)
+	root := c05Root(fn)
+	isBlobDelete := func(n string) bool {
+		return n == "(*~/content/oci.Storage).Delete" || n == "(~/content.Deleter).Delete"
+	}
 	n := 0
-	for _, fn := range c.P.FuncsOfPkg("content/oci") {
-		rms := CallsTo(fn, c07Remove)
-		if len(rms) == 0 {
-			continue
-		}
-		n++
-		tn := FnName(fn)
-		target := c07DescParam(fn)
-		ok := true
-		for _, rm := range rms {
-			a := rm.Common().Args
-			if c05DescSource(a[len(a)-1]) != target || target == nil {
-				ok = false
+	for _, e := range c05TreeEnvs(root, 3) {
+		for _, d := range Calls(e.Fn, isBlobDelete) {
+			if _, isDefer := d.(*ssa.Defer); isDefer {
+				continue
 			}
-		}
-		for _, a := range c05MaybeNilAtoms(fn) {
-			if !c05AtomMustPass(a, newCut().Calls(rms)) {
-				ok = false
+			n++
+			a := d.Common().Args
+			dv, dat := e.up(a[len(a)-1])
+			same := func(v ssa.Value, at *c05Env) bool {
+				rv, rat := at.up(v)
+				if rat != dat {
+					return false
+				}
+				if rv == dv || SameValue(rv, dv) {
+					return true
+				}
+				p, q := c05ParamOf(rv), c05ParamOf(dv)
+				return p != nil && p == q
 			}
+			spec := c05PassSpec{Instr: func(in ssa.Instruction, e2 *c05Env) bool {
+				call, ok := in.(*ssa.Call)
+				if !ok || CalleeName(call) != c07Remove {
+					return false
+				}
+				ra := call.Call.Args
+				return same(ra[len(ra)-1], e2)
+			}}
+			// (a) the node is removed from the graph before the blob is deleted …
+			before := false
+			var tgt ssa.Instruction = d.(ssa.Instruction)
+			for lv := e; lv != nil; lv = lv.Parent {
+				ct := c05PassCut(lv, spec)
+				if len(ct.instrs) > 0 && MustPass(tgt, ct) {
+					before = true
+					break
+				}
+				if lv.Call == nil {
+					break
+				}
+				tgt = lv.Call.(ssa.Instruction)
+			}
+			// (b) … or right after it succeeded, before success is reported / the next node is processed
+			after := false
+			if !before {
+				ct := c05PassCut(e, spec)
+				ct.Edges(func() []Edge { _, ne, _ := NilTests(e.Fn, Aliases(ErrOf(d))); return ne }()...)
+				if len(ct.instrs) > 0 {
+					after = true
+					for _, at := range c05MaybeNilAtoms(e.Fn) {
+						if reach(d.Block(), instrIndex(d.(ssa.Instruction))+1, at.Ret, ct) {
+							after = false
+						}
+					}
+					for _, l := range Loops(e.Fn) {
+						if l.Contains(d.(ssa.Instruction)) && reach(d.Block(), instrIndex(d.(ssa.Instruction))+1, l.Header.Instrs[0], ct) {
+							after = false
+						}
+					}
+				}
+			}
+			ok := before || after
+			c.Check(R, tn+"|delete-removes-node-from-graph", d.Pos(), ok,
+				ifelse(ok, "the blob is deleted only together with graph.Remove of the same descriptor", "a blob can be deleted without removing its node from the predecessor graph: Predecessors keeps reporting the deleted manifest"))
 		}
-		c.Check(R, tn+"|delete-removes-node-from-graph", rms[0].Pos(), ok,
-			ifelse(ok, "every successful delete passes graph.Remove(target)", "a blob can be deleted without removing its node from the predecessor graph: Predecessors keeps reporting the deleted manifest"))
 	}
 	if n == 0 {
-		c.Violation(R, "~/content/oci|delete-removes-node-from-graph", token.NoPos, "no function of the OCI store calls graph.Remove any more")
+		c.Violation(R, tn+"|delete-removes-node-from-graph", fn.Pos(), "Delete no longer removes the blob through the storage (anchor shape lost)")
 	}
 }
 
@@ -1264,9 +1316,9 @@ func c07R3(c *Ctx) {
 func c07R4(c *Ctx) {
 	const R = "C07.R4.lock-discipline"
 	c.Expect(R, 18) // 23 on the pinned tree
-	LockCheck(c, R, []GuardSpec{c06GraphSpec()}, []string{"internal/graph"})
+	LockCheck(c, R, c06WithLockExempts(c, R, []GuardSpec{c06GraphSpec()}, []string{"internal/graph"}), []string{"internal/graph"})
 	// the OCI store swaps its graph pointer in GC: readers of s.graph hold s.sync (the unsafeStore exemption is proved under C06.R1)
-	LockCheck(c, R, []GuardSpec{{Type: "~/content/oci.Store", Fields: []string{c05Cur.F("oci.graph")}, Lock: c05Cur.F("oci.sync"), Exempt: c06UnsafeExempt()}}, []string{"content/oci"})
+	LockCheck(c, R, c06WithLockExempts(c, R, []GuardSpec{{Type: "~/content/oci.Store", Fields: []string{c05Cur.F("oci.graph")}, Lock: c05Cur.F("oci.sync"), Exempt: c06UnsafeExempt()}}, []string{"content/oci"}), []string{"content/oci"})
 }
 
 var c07Mutants = []Mutant{
@@ -1294,7 +1346,7 @@ var c07Mutants = []Mutant{
 	{Name: "oci-push-index-error-ignored", File: "content/oci/oci.go", Old: "\tif err := s.graph.Index(ctx, s.storage, expected); err != nil {\n\t\treturn err\n\t}\n", New: "\t_ = s.graph.Index(ctx, s.storage, expected)\n", Expect: "C07.R2.every-push-indexed|(*~/content/oci.Store).Push|index-error-returned"},
 	{Name: "file-push-forcecas-not-indexed", File: "content/file/file.go", Old: "\treturn s.graph.Index(ctx, s, expected)", New: "\tif s.ForceCAS {\n\t\treturn nil\n\t}\n\treturn s.graph.Index(ctx, s, expected)", Expect: "C07.R2.every-push-indexed|(*~/content/file.Store).Push|index-on-every-success"},
 	{Name: "oci-delete-keeps-graph-node", File: "content/oci/oci.go", Old: "\tdanglings := s.graph.Remove(target)\n", New: "\tvar danglings []ocispec.Descriptor\n", Expect: "C07.R2.every-push-indexed|"},
-	{Name: "oci-delete-removes-only-tagged", File: "content/oci/oci.go", Old: "\tdanglings := s.graph.Remove(target)\n", New: "\tvar danglings []ocispec.Descriptor\n\tif untagged {\n\t\tdanglings = s.graph.Remove(target)\n\t}\n", Expect: "C07.R2.every-push-indexed|(*~/content/oci.Store).delete|delete-removes-node-from-graph"},
+	{Name: "oci-delete-removes-only-tagged", File: "content/oci/oci.go", Old: "\tdanglings := s.graph.Remove(target)\n", New: "\tvar danglings []ocispec.Descriptor\n\tif untagged {\n\t\tdanglings = s.graph.Remove(target)\n\t}\n", Expect: "C07.R2.every-push-indexed|(*~/content/oci.Store).Delete|delete-removes-node-from-graph"},
 	{Name: "loadindex-skips-untagged-manifests", File: "content/oci/readonlyoci.go", Old: "\t\tplain := descriptor.Plain(desc)\n\t\tif err := graph.IndexAll(ctx, fetcher, plain); err != nil {\n\t\t\treturn err\n\t\t}\n", New: "\t\tif desc.Annotations[ocispec.AnnotationRefName] == \"\" {\n\t\t\tcontinue\n\t\t}\n\t\tplain := descriptor.Plain(desc)\n\t\tif err := graph.IndexAll(ctx, fetcher, plain); err != nil {\n\t\t\treturn err\n\t\t}\n", Expect: "C07.R2.every-push-indexed|~/content/oci.loadIndex|reindex-every-manifest"},
 	{Name: "gc-rebuilt-graph-not-installed", File: "content/oci/oci.go", Old: "\ts.tagResolver = tagResolver\n\ts.graph = graph\n", New: "\ts.tagResolver = tagResolver\n", Expect: "C07.R2.every-push-indexed|(*~/content/oci.Store).gcIndex|rebuilt-graph-installed"},
 	{Name: "indexall-swallows-every-error", File: "internal/graph/memory.go", Old: "\t\t\tif errors.Is(err, errdef.ErrNotFound) {", New: "\t\t\tif errors.Is(err, errdef.ErrNotFound) || err != nil {", Expect: "C07.R2.every-push-indexed|(*~/internal/graph.Memory).IndexAll$1|skips-only-not-found"},
